@@ -86,9 +86,9 @@ theorem filter_getElem? {p : Node → Bool} : ∀ {l : List Node} {i : Nat} {v :
     repetition) inside each reference set -/
 def SameSystem (eqs eqs' : List Eqn) : Prop :=
   (∀ e ∈ eqs, ∃ e' ∈ eqs', e'.lhs = e.lhs ∧ e'.ode = e.ode ∧ (∀ u, u ∈ e'.refs ↔ u ∈ e.refs) ∧
-      (∀ u, u ∈ e'.refsNum ↔ u ∈ e.refsNum)) ∧
+      (∀ u, u ∈ e'.numRefs ↔ u ∈ e.numRefs)) ∧
   (∀ e' ∈ eqs', ∃ e ∈ eqs, e'.lhs = e.lhs ∧ e'.ode = e.ode ∧ (∀ u, u ∈ e'.refs ↔ u ∈ e.refs) ∧
-      (∀ u, u ∈ e'.refsNum ↔ u ∈ e.refsNum))
+      (∀ u, u ∈ e'.numRefs ↔ u ∈ e.numRefs))
 
 theorem sameSystem_hasEq {eqs eqs' : List Eqn} (h : SameSystem eqs eqs') (v : Node) :
     hasEq eqs' v = hasEq eqs v := by
